@@ -839,6 +839,11 @@ impl<'b> InnerBucket<'b> {
                 }
                 // Handle root node speially
                 if node.page_id == self.meta.root_page {
+                    if !node.leaf() && node.data.len() == 0 {
+                        // Every child was emptied and removed: the bucket is empty again.
+                        node.data = NodeData::Leaves(Vec::new());
+                        node.children.clear();
+                    }
                     // If the root node has only one branch, promote that page to the root page
                     if !node.leaf() && node.data.len() == 1 {
                         // delete the root node
@@ -871,7 +876,10 @@ impl<'b> InnerBucket<'b> {
                         // since there are no siblings to move the data to.
                         // When we handle the parent, it will get merged with it's siblings or promoted
                         // to root.
-                        if branches.len() == 1 {
+                        // An empty node has no data to move and must not survive: it has no first key
+                        // to be referenced by. Removing it may leave the parent empty, which is
+                        // handled the same way when the parent is visited.
+                        if branches.len() == 1 && node.data.len() > 0 {
                             continue;
                         }
                         // check if there is any data left to copy
